@@ -476,6 +476,7 @@ impl<'a, 'input: 'a> SvgNode<'a, 'input> {
             curr: self.id(),
             is_first: true,
             is_finished: false,
+            steps: 0,
         }
     }
 }
@@ -601,6 +602,7 @@ pub struct HrefIter<'a, 'input: 'a> {
     curr: NodeId,
     is_first: bool,
     is_finished: bool,
+    steps: usize,
 }
 
 impl<'a, 'input: 'a> Iterator for HrefIter<'a, 'input> {
@@ -617,7 +619,13 @@ impl<'a, 'input: 'a> Iterator for HrefIter<'a, 'input> {
         }
 
         if let Some(link) = self.doc.get(self.curr).node_attribute(AId::Href) {
-            if link.id() == self.curr || link.id() == self.origin {
+            // A link can also point back to the middle of the chain (a -> b -> c -> b).
+            // A chain longer than the number of nodes in the document must contain such a loop.
+            self.steps += 1;
+            if link.id() == self.curr
+                || link.id() == self.origin
+                || self.steps > self.doc.nodes.len()
+            {
                 log::warn!(
                     "Element '#{}' cannot reference itself via 'xlink:href'.",
                     self.doc.get(self.origin).element_id()
